@@ -14,7 +14,7 @@ RULE = ('one run = one proof module: a shipped one (Propositional, SmallTheory, 
         'the real checker and R1 must accept each triple. Non-trivial = at least one accepted library or rule step is in the dependency cone of a claim; '
         'distinct = distinct event-log digests.')
 PROBES = ['lib_step', 'mp_step', 'inst_step', 'gen_step', 'taut_step', 'load_emitted', 'memoizer_saved', 'claims_ge2', 'import_depth_ge2',
-          'diamond_import', 'notation_in_claim', 'optimized_differs', 'shipped_module', 'esubst_emitted', 'constrained_metavar_emitted', 'memory_pressure_module']
+          'diamond_import', 'notation_in_claim', 'optimized_differs', 'shipped_module', 'esubst_emitted', 'constrained_metavar_emitted', 'memory_pressure_module', 'grown_axiom_in_main', 'grown_axiom_in_submodule', 'grown_claim']
 ASSUMPTIONS = ['well-formed workload: argument patterns are well-formed by the documented judgement and explicit instantiations are legal by R3 (DESIGN.md 3.1)']
 
 
@@ -26,6 +26,10 @@ def generate(rng, tier):
     sc = _p.gen_scenario(rng, tier)
     sc['order'] = rng.choice([[False, True], [True, False]])
     sc['_tier'] = tier
+    if rng.random() < 0.25:
+        # the module goes on being used after it was serialised: an axiom is added (to the module or to one of its imported
+        # modules), optionally a new imported module, a new claim with its proof; then it is serialised once more
+        sc['grow'] = {'where': rng.randrange(8), 'import': rng.random() < 0.3, 'claim': rng.random() < 0.6, 'optimize': rng.random() < 0.5, 'salt': rng.randrange(1000)}
     return sc
 
 
@@ -61,6 +65,7 @@ def execute(sc, ctx, want=('C02',)):
         return out
     if recipe is not None:
         out.explicit = {'recipe': recipe, 'order': sc['order']}
+        if sc.get('grow'): out.explicit['grow'] = sc['grow']
         steps = recipe['steps']
         cone = _p._closure(steps, recipe['claims'])
         for i in cone:
@@ -162,6 +167,8 @@ def execute(sc, ctx, want=('C02',)):
             if 'MetaVar' in names: out.probe('constrained_metavar_emitted')
             if 'C03' in want:
                 _p.journal_check(m, axioms, claims, _p.B.SymMap(), out, 'optimize=%s' % opt)
+    if sc.get('grow') and triples and not out.violations:
+        _grow(sc['grow'], mod, fs, ctx, out, want)
     if 'C02' in want and True in refusals and False in triples and not out.violations:
         # optimisation must not turn a module that serialises (and is accepted) without it into a refusal
         out.violate('serialising with optimisation succeeds whenever serialising without it does', 'C02|optimised-serialisation-refused|' + refusals[True],
@@ -173,4 +180,59 @@ def execute(sc, ctx, want=('C02',)):
     return out
 
 
-shrink = _p.shrink_recipe
+def _grow(g, mod, fs, ctx, out, want):
+    """History: the already serialised module object is extended and serialised again; what is published must be the
+    declaration as it stands now."""
+    from proof_generation.proof import ProofExp
+    from proof_generation.pattern import App, Implies, Symbol
+    targets, seen = [], set()
+
+    def walk(m):
+        if id(m) in seen: return
+        seen.add(id(m))
+        targets.append(m)
+        for s in m._submodules: walk(s)
+    walk(mod)
+    tm = targets[g['where'] % len(targets)]
+    new_ax = Implies(Symbol('grown%d' % g['salt']), App(Symbol('grown_f'), Symbol('grown%d' % g['salt'])))
+    tm.add_axiom(new_ax)
+    out.probe('grown_axiom_in_submodule' if tm is not mod else 'grown_axiom_in_main')
+    if g['import']:
+        sub = ProofExp(axioms=[App(Symbol('grown_g'), Symbol('grown%d' % g['salt']))])
+        mod.import_module(sub)
+        out.probe('grown_import')
+    if g['claim']:
+        th = tm.load_axiom(new_ax)
+        mod.add_claim(th.conc)
+        mod.add_proof_expression(th)
+        out.probe('grown_claim')
+    axioms, claims = _p.declared_of(mod)
+    base = '/sim/out_grown'
+    try:
+        _p.serialise(mod, fs, base, 'binary', g['optimize'])
+    except Exception as e:
+        if 'C02' in want:
+            out.violate('a module extended after a serialisation serialises again', 'C02|grown|serialise-raises|' + type(e).__name__, str(e)[:300])
+        return
+    triple = fs.triple(base)
+    out.event('serialised-after-growth', g['optimize'], [len(x) for x in triple])
+    where = 'after growth (axiom added to %s%s%s), optimize=%s' % ('the module' if tm is mod else 'an imported module', ', new import' if g['import'] else '',
+                                                                    ', new claim' if g['claim'] else '', g['optimize'])
+    if 'C02' in want:
+        _p.check_accept(triple, ctx, out, where, mod)
+    else:
+        okv, m, _msg, _at = _p.R.verify(*triple)
+        okg, mg, _m2, _a2 = _p.R.verify(triple[0], triple[1], b'')
+        if okv:
+            _p.journal_check(m, axioms, claims, _p.B.SymMap(), out, where)
+        elif mg.phase == 2 and not _m2.startswith(('ill-formed', 'instantiation', 'esubst', 'ssubst')):
+            _p.journal_check(mg, axioms, claims, _p.B.SymMap(), out, where + ' (gamma and claim files only)', discharge=False)
+
+
+def shrink(sc):
+    if sc.get('grow'):
+        g = sc['grow']
+        if g['import']: yield dict(sc, grow=dict(g, **{'import': False}))
+        if g['claim']: yield dict(sc, grow=dict(g, claim=False))
+        if g['optimize']: yield dict(sc, grow=dict(g, optimize=False))
+    yield from _p.shrink_recipe(sc)
